@@ -517,6 +517,7 @@ fn run_line(line: &str) -> Option<String> {
         "qfirst" if f.len() == 2 => Some(format!("{} => {}", line, run_first(f[1].parse().unwrap_or(1)))),
         "qunwind" if f.len() == 2 => Some(format!("{} => {}", line, run_unwind(f[1].parse().unwrap_or(1)))),
         "qdeep" if f.len() == 2 => Some(format!("{} => {}", line, run_deep(f[1].parse().unwrap_or(1)))),
+        "qstop0" if f.len() == 2 => Some(format!("{} => {}", line, run_stop0(f[1].parse().unwrap_or(1)))),
         "qemitdrop" if f.len() == 2 => Some(format!("{} => {}", line, run_emitdrop(f[1].parse().unwrap_or(1)))),
         "qstress" if f.len() == 4 => {
             let r = run_stress(parse_cap(f[1]), f[2].parse().unwrap_or(2), f[3].parse().unwrap_or(10));
@@ -966,6 +967,67 @@ impl Drop for Probe {
     }
 }
 
+/// capacity 0 (a rendezvous channel cannot hold the stop marker): the worker is held inside the wrapped sink,
+/// released, and after a few spins the only handle is dropped — aimed at the worker's way back from the sink to
+/// `recv()`.  The wrapped sink must be dropped all the same.  `rounds` attempts on each of 8 threads.
+fn run_stop0(rounds: usize) -> String {
+    let failed: Arc<std::sync::Mutex<Option<String>>> = Arc::new(std::sync::Mutex::new(None));
+    let mut hs = Vec::new();
+    for t in 0..8u64 {
+        let failed = failed.clone();
+        hs.push(std::thread::spawn(move || {
+            let mut rng = Rng::new(env_seed() ^ (t + 1).wrapping_mul(0x51ED_270B));
+            for round in 0..rounds {
+                if failed.lock().unwrap().is_some() {
+                    return;
+                }
+                let (ready, go, seen) = (Arc::new(AtomicU64::new(0)), Arc::new(AtomicU64::new(0)), Arc::new(AtomicU64::new(0)));
+                let (tx, rx) = std::sync::mpsc::channel();
+                let probe = Probe { ready: ready.clone(), go: go.clone(), delay: rng.below(64), seen: seen.clone(), dropped: std::sync::Mutex::new(tx) };
+                let q = QueuingMetricSink::with_capacity(probe, 0);
+                // a rendezvous queue accepts a metric only while the worker waits in recv()
+                let t0 = Instant::now();
+                let mut accepted = false;
+                while t0.elapsed() < Duration::from_secs(2) {
+                    if q.emit("first").is_ok() {
+                        accepted = true;
+                        break;
+                    }
+                    std::hint::spin_loop();
+                }
+                if accepted {
+                    let t0 = Instant::now();
+                    while ready.load(Ordering::SeqCst) == 0 && t0.elapsed() < Duration::from_secs(2) {
+                        std::hint::spin_loop();
+                    }
+                    go.store(1, Ordering::SeqCst);
+                    for _ in 0..rng.below(256) {
+                        std::hint::spin_loop();
+                    }
+                }
+                drop(q);
+                match rx.recv_timeout(Duration::from_secs(4)) {
+                    Ok(n) if n == accepted as u64 => {}
+                    Ok(n) => {
+                        *failed.lock().unwrap() = Some(format!("capacity-0:{}-accepted-{}-delivered-before-the-wrapped-sink-was-dropped", accepted as u64, n));
+                        return;
+                    }
+                    Err(_) => {
+                        *failed.lock().unwrap() =
+                            Some(format!("capacity-0:the-worker-never-stopped-and-the-wrapped-sink-was-never-dropped-after-the-last-handle-was-dropped-round-{}", round));
+                        return;
+                    }
+                }
+            }
+        }));
+    }
+    for h in hs {
+        let _ = h.join();
+    }
+    let r = failed.lock().unwrap().clone();
+    r.unwrap_or_else(|| "ok".to_string())
+}
+
 fn run_emitdrop(rounds: usize) -> String {
     let failed: Arc<std::sync::Mutex<Option<String>>> = Arc::new(std::sync::Mutex::new(None));
     let mut hs = Vec::new();
@@ -1342,6 +1404,12 @@ fn main() {
     }
     if SHARD_K.load(Ordering::Relaxed) == 1 % SHARD_N.load(Ordering::Relaxed) {
         if let Some(l) = run_line(&format!("qemitdrop {}", if tier == "quick" { 8000 } else { 100000 })) {
+            writeln!(out, "{}", l).unwrap();
+            extra += 1;
+        }
+    }
+    if SHARD_K.load(Ordering::Relaxed) == 5 % SHARD_N.load(Ordering::Relaxed) {
+        if let Some(l) = run_line(&format!("qstop0 {}", if tier == "quick" { 1800 } else { 30000 })) {
             writeln!(out, "{}", l).unwrap();
             extra += 1;
         }
